@@ -8,6 +8,7 @@ import RasnModel.Driver.C17
 import RasnModel.Driver.Struct
 import RasnModel.Driver.Pipeline
 import RasnModel.Driver.C19
+import RasnModel.Driver.C20
 /- Line-protocol driver: one request per line, one canonical answer per line. -/
 
 def dispatch (line : String) : String :=
@@ -23,6 +24,9 @@ def dispatch (line : String) : String :=
   | some (.atom "struct" :: args) => Driver.Struct.handle args
   | some (.atom "recgraph" :: args) => Driver.Struct.handleRec args
   | some (.atom "c19" :: args) => Driver.C19.handle args
+  | some (.atom "c20" :: args) => Driver.C20.handle args
+  | some (.atom "c20find" :: args) => Driver.C20.handleFind args
+  | some (.atom "c20macro" :: args) => Driver.C20.handleMacro args
   | some (.atom "pipe" :: args) => Driver.Pipeline.handle args
   | some (.atom "ping" :: _) => "pong"
   | _ => "bad-op"
